@@ -154,6 +154,9 @@ pub fn dash_path(path: &Path, dash_array: &[f32], mut dash_offset: f32) -> Path 
                             first_dash = false;
                             dashed.move_to(seg.x, seg.y);
                         }
+                        // a dash boundary was crossed: later dashes on the closing
+                        // segment no longer belong to the initial segment
+                        is_first_segment = false;
                         state.on = !state.on;
                         state.index += 1;
                         len -= state.remaining_length;
